@@ -22,6 +22,8 @@ ASSUMPTIONS = ["5th LEB128 byte with bits beyond 2^32 is outside the DEX value d
 
 SEPT = [0x00, 0x01, 0x3f, 0x40, 0x7f, 0x2a, 0x55, 0x08, 0x0f]
 TAIL = b"\xa5\x5a\xff"
+TAILS = [b"", b"\x05", b"\xa5\x5a", TAIL]      # every distance 0..3 to the end of the buffer
+TAILS_3 = [b"", TAIL]                            # the exhaustive 3-septet shards use both extremes
 MANIFEST = {
     "engine": "E1-product",
     "technique": "exhaustive finite-domain enumeration against an arithmetic reference model",
@@ -80,14 +82,17 @@ def in_domain_s(septs, raw5=None):
     return hi in (0x0, 0xf)
 
 
-def check_decode(dex, cm, raw, septs, acc):
+def check_decode(dex, cm, raw, septs, acc, full_tails=False):
     """raw: the encoded bytes; septs: payload septets (len 5 => raw[4] is the full fifth byte)."""
     k = len(raw)
     raw5 = raw[4] if k == 5 else None
     for fn, name, ref, dom in ((dex.readuleb128, "uleb", ref_uleb, in_domain_u),
                                (dex.readsleb128, "sleb", ref_sleb, in_domain_s),
                                (dex.readuleb128p1, "ulebp1", lambda s: ref_uleb(s) - 1, in_domain_u)):
-        f = io.BytesIO(raw + TAIL)
+      # the number is followed by 0..3 more bytes (distance to the end of the buffer: a reader that looks ahead must not
+      # misplace the cursor when fewer bytes than its look-ahead remain); a second number is then read from the same buffer
+      for tail in (TAILS if (k != 3 or full_tails) else TAILS_3):
+        f = io.BytesIO(raw + tail)
         try:
             got = fn(cm, f)
             used = f.tell()
@@ -97,9 +102,9 @@ def check_decode(dex, cm, raw, septs, acc):
         want = ref(septs)
         bad = used != k or (exact and got != want) or (not exact and not isinstance(got, int))
         if bad:
-            acc.violation("decode:%s:len%d%s" % (name, k, "" if exact else ":outofdomain"),
-                          {"op": "decode", "fn": name, "bytes": raw.hex()},
-                          "%s(%s) -> %r consumed %r; expected %r consumed %d" % (name, raw.hex(), got, used, want, k))
+            acc.violation("decode:%s:len%d%s%s" % (name, k, "" if exact else ":outofdomain", "" if len(tail) == 3 else ":%d-bytes-before-end" % len(tail)),
+                          {"op": "decode", "fn": name, "bytes": raw.hex(), "tail": tail.hex()},
+                          "%s(%s) followed by %d more bytes -> %r consumed %r; expected %r consumed %d" % (name, raw.hex(), len(tail), got, used, want, k))
         acc.n += 1
     return
 
@@ -250,7 +255,7 @@ def replay(ctx, w):
     if w["op"] == "decode":
         raw = bytes.fromhex(w["bytes"])
         septs = [x & 0x7f for x in raw]
-        check_decode(dex, cm, raw, septs, acc)
+        check_decode(dex, cm, raw, septs, acc, full_tails=True)
     else:
         check_encode(dex, cm, w["value"], acc)
     if acc.viol:
